@@ -242,6 +242,12 @@ class Play:
             self.main = ctx
             self.is_async = is_async
         self.set_val(ctx, self.case.get("val0", {}))
+        # guards that are plain data attributes start as None on every freshly created provider object (the machine always, model
+        # and listeners unless an existing model object is reused): the constructor's own activation already sees that
+        for k in Hh.attr_guards:
+            if not (k.endswith("@model") and model is not None and not getattr(self, "_fresh_model", False)):
+                Hh.val[k] = None
+        it.val = dict(Hh.val)
         self.set_fault(ctx, None)
         mk = {}
         if model is None:
@@ -272,7 +278,6 @@ class Play:
             # the definition is valid by construction: nothing else may escape from the constructor
             raise Fail("construction-failed", f"construction of {name} raised {type(e).__name__}: {e}")
         ctx.sm = sm
-        self.sync_attr_guards(ctx, [k for k in Hh.attr_guards if k in Hh.val])  # (until now the attributes held None)
         ctx.model = mk.get("model") if mk.get("model_given") else Hh.objs.get("model")
         # names that resolve to properties/attributes are read once at registration to see whether they are
         # callable: those reads are not guard evaluations
@@ -450,7 +455,11 @@ class Play:
             model = make_model(shape if shape != "default" or base else "plain", base, self.field, old.H)
             state0 = None
             self.labels.add("fresh-model-same-class")
-        ctx = await self.construct(old.name, model=model, Hh=old.H, state0=state0)
+            self._fresh_model = True
+        try:
+            ctx = await self.construct(old.name, model=model, Hh=old.H, state0=state0)
+        finally:
+            self._fresh_model = False
         ctx.extra.update({k: v for k, v in old.extra.items() if k == "user_model"})
         if state0 is not None:
             now = getattr(model, self.field, None)
